@@ -21,6 +21,9 @@ def var_ids(tree, numbering):
 def structure_pool(tier, max_vars=3, mixed=True):
     """(tree, prod, style, nary) combinations."""
     trees = A.trees_upto(max_vars, mixed=mixed)
+    if tier == "quick" and mixed and max_vars >= 3:
+        # quick: every single-partition tree, two two-partition DAGs, the duplicated partitions of 2 variables and two of 3
+        trees = A.trees_upto(max_vars, mixed=False) + A.mixed_trees([0, 1, 2])[:2] + A.dup_trees([0, 1]) + A.dup_trees([0, 1, 2])[:2]
     combos = [("had", "cpt"), ("had", "cp"), ("had", "plain"), ("kro", "cpt")]
     if tier == "thorough":
         combos += [("had", "sumsum"), ("kro", "sumsum")]
